@@ -29,6 +29,13 @@ import vlib
 
 SPEC_DIR = os.path.join(vlib.SPEC, "async")
 MAX_REPORTED = 8          # distinct failures reported per run (smallest scenarios first)
+# signature of the open known finding (known_findings.d/C16.json)
+KNOWN_YS_RETURN = ("async generator yield*: the value of a done result of inner.return() is awaited before the "
+                   "generator returns (observations equal Promises.tla with Quirks = {ysReturnAwait})")
+
+
+def uses_yield_star(scn):
+    return any(st.get("op") == "ys" for t in scn["tasks"] for st in t.get("steps", []))
 
 
 # ---------------------------------------------------------------- rendering scenario -> JavaScript
@@ -82,7 +89,7 @@ def opnd_js(o, i, j, x):
 def handler_js(spec, label, i, j, x, noarg):
     if spec["o"] == "none":
         return "undefined"
-    head = f'function(){{print("{label}");' if noarg else f'function(v){{print("{label}",v);'
+    head = f'function(){{print("{label}");' if noarg else f'function(v){{pr("{label}",v);'
     if spec["o"] == "throw":
         return head + f"throw {site_n(i, j, x)}}}"
     return head + f"return {opnd_js(spec, i, j, x)}}}"
@@ -96,25 +103,59 @@ def settle_js(step, i, j):
     raise vlib.ToolError(f"renderer: unknown settle step {step}")
 
 
+# every print of a value goes through this helper of the scripts: it spreads arrays, the records of
+# Promise.allSettled and iterator results into their components (Promises.tla: Flat)
+PR_HELPER = ('function pr(l,v){var a=[l];function one(e){if(e!==null&&typeof e==="object"){if("status" in e){'
+             'a.push(e.status);a.push(e.status==="fulfilled"?e.value:e.reason);return}if(("done" in e)&&("value" in e)){'
+             'a.push(e.value);a.push(e.done);return}}a.push(e)}if(Array.isArray(v)){for(var k=0;k<v.length;k++)one(v[k])}'
+             'else one(v);print.apply(null,a)}')
+
+
+def body_js(t, i, gen):
+    body = [f'print("{"gg" if gen else "go"}{i}.0");var r;']
+    for pc, st in enumerate(t["steps"], start=1):
+        op = st["op"]
+        if op == "aw":
+            body.append(f'r=await {opnd_js(st["x"], i, pc, 0)};pr("aw{i}.{pc}",r);')
+        elif op == "awc":
+            body.append(f'try{{r=await {opnd_js(st["x"], i, pc, 0)};pr("aw{i}.{pc}",r)}}'
+                        f'catch(e){{pr("ca{i}.{pc}",e)}}')
+        elif op == "yi" and gen:
+            body.append(f'r=yield {opnd_js(st["x"], i, pc, 0)};pr("yi{i}.{pc}",r);')
+        elif op == "ys" and gen:
+            body.append(f'r=yield* G{st["s"]};pr("ys{i}.{pc}",r);')
+        elif op == "gq" and not gen:
+            body.append(f'G{st["s"]}.{st["g"]}({site_n(i, pc, 1)}).then(function(v){{pr("gq{i}.{pc}",v)}},'
+                        f'function(v){{pr("ge{i}.{pc}",v)}});')
+        elif op == "awq" and not gen:
+            body.append(f'r=await G{st["s"]}.{st["g"]}({site_n(i, pc, 1)});pr("aw{i}.{pc}",r);')
+        elif op in ("res", "rej"):
+            body.append(settle_js(st, i, pc))
+        else:
+            raise vlib.ToolError(f"renderer: unknown step {st}")
+    if t["ret"]["o"] == "throw":
+        body.append(f"throw {site_n(i, 9, 0)};")
+    else:
+        body.append(f"return {opnd_js(t['ret'], i, 9, 0)};")
+    return "".join(body)
+
+
 def render(scn):
     """-> list of script sources (1 or 2)."""
-    out = []
+    out = [PR_HELPER]
     for s in range(1, scn["ns"] + 1):
         out.append(f"var S{s},rS{s},jS{s};S{s}=new Promise(function(r,j){{rS{s}=r;jS{s}=j}});")
     for i, t in enumerate(scn["tasks"], start=1):
         if t["kind"] == "A":
-            body = [f'print("go{i}.0");var r;']
-            for pc, st in enumerate(t["steps"], start=1):
-                if st["op"] == "aw":
-                    body.append(f'r=await {opnd_js(st["x"], i, pc, 0)};print("aw{i}.{pc}",r);')
-                else:
-                    body.append(settle_js(st, i, pc))
-            if t["ret"]["o"] == "throw":
-                body.append(f"throw {site_n(i, 9, 0)};")
-            else:
-                body.append(f"return {opnd_js(t['ret'], i, 9, 0)};")
-            out.append(f"async function t{i}(){{" + "".join(body) + "}")
-            out.append(f'var T{i}=t{i}();T{i}.then(function(v){{print("ok{i}.0",v)}},function(e){{print("err{i}.0",e)}});')
+            out.append(f"async function t{i}(){{" + body_js(t, i, False) + "}")
+            out.append(f'var T{i}=t{i}();T{i}.then(function(v){{pr("ok{i}.0",v)}},function(e){{pr("err{i}.0",e)}});')
+        elif t["kind"] == "G":
+            out.append(f"async function* g{i}(){{" + body_js(t, i, True) + "}")
+            out.append(f"var G{i}=g{i}();")
+        elif t["kind"] == "M":
+            xs = ",".join(opnd_js(x, i, k, 0) for k, x in enumerate(t["xs"], start=1))
+            out.append(f"var T{i}=Promise.{t['comb']}([{xs}]);")
+            out.append(f'T{i}.then(function(v){{pr("ok{i}.0",v)}},function(e){{pr("err{i}.0",e)}});')
         elif t["kind"] == "C":
             out.append(f"var T{i}=Promise.resolve({opnd_js(t['base'], i, 0, 0)});")
             for l, lk in enumerate(t["links"], start=1):
@@ -143,8 +184,16 @@ def render_value(v):
         return "u"
     if t == "n":
         return f"n:{v['n']}"
-    if t in ("p", "th"):
+    if t in ("p", "th", "ent"):
         return "o:Object"
+    if t == "s":
+        return f"s:{v['s']}"
+    if t == "b":
+        return "b:true" if v["b"] else "b:false"
+    if t == "iter":
+        return "o:Object"
+    if t == "arr":
+        return f"o:Array({len(v['xs'])})"
     if t == "err":
         return f"o:Error:{v['c']}"
     if t == "f":
@@ -163,7 +212,7 @@ def expected_streams(model_out, nsrc):
                 steps.append([])
             continue
         if e == "print":
-            txt = f"s:{ev['l']}" + (f" {render_value(ev['v'])}" if "v" in ev else "")
+            txt = " ".join([f"s:{ev['l']}"] + [render_value(v) for v in ev["vs"]])
             steps[-1].append(("p", txt))
         elif e == "enq":
             steps[-1].append(("j", f"J+{ev['id']}"))
@@ -288,7 +337,7 @@ def compare(rec, exp_steps, mode, got):
 def scn_size(scn):
     n = len(scn["late"])
     for t in scn["tasks"]:
-        n += 1 + len(t.get("steps", [])) + len(t.get("links", []))
+        n += 1 + len(t.get("steps", [])) + len(t.get("links", [])) + len(t.get("xs", []))
     return n
 
 
@@ -297,12 +346,15 @@ def generate_random(rng, count):
     only: expectations come from TLC (MCPromisesFile)."""
     kinds = ["v", "F", "R", "ThS", "ThR", "ThA", "ThX", "ThT", "ThD", "Gn", "Gf", "Gx", "Pp", "Pc", "u"]
 
+    tasks = []
+
     def opnd(i, ns):
         r = rng.random()
         if ns and r < 0.25:
             return {"o": "S", "s": rng.randint(1, ns)}
-        if i > 1 and r < 0.40:
-            return {"o": "T", "s": rng.randint(1, i - 1)}
+        prom = [k for k in range(1, min(i, len(tasks) + 1)) if tasks[k - 1]["kind"] != "G"]   # tasks that expose a promise T_k
+        if prom and r < 0.40:
+            return {"o": "T", "s": rng.choice(prom)}
         return {"o": rng.choice(kinds), "s": 0}
 
     def hspec(i, ns, allow_none=True):
@@ -317,18 +369,38 @@ def generate_random(rng, count):
     for _ in range(count):
         ns = rng.randint(0, 2)
         nt = rng.randint(2, 5)
-        tasks = []
+        tasks.clear()
+        gens = []          # indices of earlier async generator tasks
         for i in range(1, nt + 1):
-            if rng.random() < 0.55:
+            kind_r = rng.random()
+            if kind_r < 0.12:
+                tasks.append({"kind": "M", "comb": rng.choice(["all", "allSettled", "race", "any"]),
+                              "xs": [opnd(i, ns) for _k in range(rng.randint(0, 3))]})
+            elif kind_r < 0.30 and i < nt:
+                steps = []
+                for _k in range(rng.randint(0, 3)):
+                    r = rng.random()
+                    if gens and r < 0.45:
+                        steps.append({"op": "ys", "x": {"o": "u", "s": 0}, "s": rng.choice(gens)})
+                    elif r < 0.75:
+                        steps.append({"op": "yi", "x": opnd(i, ns), "s": 0})
+                    else:
+                        steps.append({"op": "aw" if rng.random() < 0.7 else "awc", "x": opnd(i, ns), "s": 0})
+                tasks.append({"kind": "G", "steps": steps, "ret": hspec(i, ns, allow_none=False)})
+                gens.append(i)
+            elif kind_r < 0.68:
                 steps = []
                 for _k in range(rng.randint(0, 4)):
                     r = rng.random()
-                    if ns and r < 0.25:
+                    if gens and r < 0.45:
+                        steps.append({"op": rng.choice(["gq", "gq", "awq"]), "x": {"o": "u", "s": 0}, "s": rng.choice(gens),
+                                      "g": rng.choice(["next", "next", "next", "return", "throw"])})
+                    elif ns and r < 0.60:
                         steps.append({"op": "res", "x": opnd(i, ns), "s": rng.randint(1, ns)})
-                    elif ns and r < 0.32:
+                    elif ns and r < 0.65:
                         steps.append({"op": "rej", "x": {"o": "u", "s": 0}, "s": rng.randint(1, ns)})
                     else:
-                        steps.append({"op": "aw", "x": opnd(i, ns), "s": 0})
+                        steps.append({"op": "aw" if rng.random() < 0.7 else "awc", "x": opnd(i, ns), "s": 0})
                 tasks.append({"kind": "A", "steps": steps, "ret": hspec(i, ns, allow_none=False)})
             else:
                 links = []
@@ -348,19 +420,18 @@ def generate_random(rng, count):
                     late.append({"op": "res", "x": opnd(nt + 1, ns), "s": rng.randint(1, ns)})
                 else:
                     late.append({"op": "rej", "x": {"o": "u", "s": 0}, "s": rng.randint(1, ns)})
-        # T references inside `late` operands may point to any task
-        out.append({"ns": ns, "tasks": tasks, "late": late})
+        out.append({"ns": ns, "tasks": list(tasks), "late": late})
     return out
 
 
-def tlc_scenarios(module, workers, coverage, env_extra=None, timeout=1500):
+def tlc_scenarios(module, workers, coverage, env_extra=None, timeout=1500, cfg=None):
     recs = []
 
     def on_tagged(tag, obj):
         if tag == "REPLAY":
             recs.append(obj)
 
-    r = vlib.run_tlc(os.path.join(SPEC_DIR, module + ".tla"), module + ".cfg", workers=workers, coverage=coverage,
+    r = vlib.run_tlc(os.path.join(SPEC_DIR, module + ".tla"), cfg or (module + ".cfg"), workers=workers, coverage=coverage,
                      on_tagged=on_tagged, env_extra=env_extra, timeout=timeout)
     vlib.tlc_must_pass(r, "Promises/" + module)
     return r, recs
@@ -462,6 +533,40 @@ def run(tier, replay=None):
         rec, srcs, exp_steps, ms = exp[idx]
         ck.sample({"scenario": rec["scn"], "script": srcs, "expected_prints": [proj(s, "p") for s in exp_steps]}, cap=3)
 
+    # 4b. classify disagreements against the named deviations of the model (open known findings): a
+    #     scenario is explained iff EVERY schedule's observation equals, in every projection, what the
+    #     model prescribes with the deviation switched on (expectations again from TLC)
+    explained = set()
+    suspects = sorted({f[1] for f in failures} | {d[0] for d in drifts})
+    cand = [idx for idx in suspects if uses_yield_star(exp[idx][0]["scn"])]
+    if cand:
+        qpath = os.path.join(vlib.WORK, f"c16-quirk-{os.getpid()}.ndjson")
+        with open(qpath, "w") as f:
+            for idx in cand:
+                f.write(json.dumps(exp[idx][0]["scn"]) + "\n")
+        try:
+            rq, recsq = tlc_scenarios("MCPromisesFile", workers, coverage=False, env_extra={"SCN": qpath},
+                                      cfg="MCPromisesFileQuirk.cfg")
+        finally:
+            os.unlink(qpath)
+        qexp = {json.dumps(rec["scn"], sort_keys=True): rec for rec in recsq}
+        for idx in cand:
+            rec, srcs, exp_steps, ms = exp[idx]
+            q = qexp.get(json.dumps(rec["scn"], sort_keys=True))
+            if q is None:
+                continue
+            q_steps = expected_streams(q["out"], len(srcs))
+            got = res[idx]
+            if "res" in got and all(not compare(q, q_steps, mode, g) for mode, g in zip(ms, got["res"])):
+                explained.add(idx)
+        vlib.log(f"[classify] {len(explained)} of {len(cand)} disagreeing yield* scenarios match the model with "
+                 f"deviation ysReturnAwait exactly")
+    for idx in sorted(explained):
+        rec, srcs, exp_steps, ms = exp[idx]
+        ck.failure(KNOWN_YS_RETURN, {"scenario": rec["scn"], "script": srcs})
+    failures = [f for f in failures if f[1] not in explained]
+    drifts = [d for d in drifts if d[0] not in explained]
+
     # 5. report (smallest scenarios first; each failure re-run once for reproducibility)
     failures.sort(key=lambda f: (f[0], f[1]))
     reported = 0
@@ -489,7 +594,7 @@ def run(tier, replay=None):
                   "expected": bad2[0][2], "actual": bad2[0][3], "failing_scenarios_total": len({f[1] for f in failures})}
         if ck.failure(sig, detail):
             reported += 1
-    if failures and reported == 0 and not ck.known_hit:
+    if failures and reported == 0:
         raise vlib.ToolError("failures found but none reported")
     for idx, mode, bad in drifts[:3]:
         vlib.log(f"MODEL-DRIFT: job enqueue/run events differ from the model although prints agree: scenario {idx} "
@@ -499,7 +604,8 @@ def run(tier, replay=None):
     ck.cov.update(states=states, transitions=trans, traces_validated_against_impl=evals, scenarios=len(recs),
                   scenarios_exhaustive=n_exh, scenarios_sampled=n_sampled, evaluations=evals,
                   distinct_nontrivial=nontrivial, jobs_in_model=jobs_total, async_yields_observed=yields,
-                  failing_scenarios=len({f[1] for f in failures}), budgets=budgets(),
+                  failing_scenarios=len({f[1] for f in failures}), explained_by_known_deviation=len(explained),
+                  budgets=budgets(),
                   rule="one replay per (scenario, schedule); a scenario is non-trivial when jobs of at least two "
                        "different tasks interleave in the model's order (owner of a job = task of the first label "
                        "it prints; pattern a..b..a)")
